@@ -9,13 +9,13 @@ import SiaModel.Text.Ident
 namespace Sia.Driver
 open Sia.Text
 
-private def unhexArg (s : String) : Option (List UInt8) :=
+def textUnhexArg (s : String) : Option (List UInt8) :=
   if s = "-" then some [] else (Sia.hexDecode s).map (·.data.toList)
 
-private def hexOut (b : List UInt8) : String :=
+def textHexOut (b : List UInt8) : String :=
   if b.isEmpty then "-" else Sia.hexEncode ⟨b.toArray⟩
 
-private def runesArg (s : String) : Option (Nat → Bool) :=
+def textRunesArg (s : String) : Option (Nat → Bool) :=
   if s = "-" then some (fun _ => false)
   else
     let parts := (s.splitOn ",").map String.toNat?
@@ -26,12 +26,12 @@ private def runesArg (s : String) : Option (Nat → Bool) :=
 
 private def optOut (o : Option (List UInt8)) : String :=
   match o with
-  | some b => "ok " ++ hexOut b
+  | some b => "ok " ++ textHexOut b
   | none => "err"
 
 private def resOut (o : Res (List UInt8)) : String :=
   match o with
-  | .ok b => "ok " ++ hexOut b
+  | .ok b => "ok " ++ textHexOut b
   | .err => "err"
   | .panic => "panic"
 
@@ -42,12 +42,12 @@ mutual
   private def showPolicy : Policy → List String
     | .above h => ["ab", toString h]
     | .after t => ["af", toString t]
-    | .pk k => ["pk", hexOut k]
-    | .hash k => ["h", hexOut k]
-    | .opaque k => ["op", hexOut k]
+    | .pk k => ["pk", textHexOut k]
+    | .hash k => ["h", textHexOut k]
+    | .opaque k => ["op", textHexOut k]
     | .thresh n ps => ["th", toString n, toString (lenPL ps)] ++ showPL ps
     | .uc tl ks sg => ["uc", toString tl, toString sg, toString ks.length] ++
-        (ks.map (fun k => [hexOut k.alg, hexOut k.key])).flatten
+        (ks.map (fun k => [textHexOut k.alg, textHexOut k.key])).flatten
   private def showPL : PolicyList → List String
     | .nil => []
     | .cons p ps => showPolicy p ++ showPL ps
@@ -56,46 +56,46 @@ mutual
     | .cons _ ps => lenPL ps + 1
 end
 
-private def readKeys : Nat → List String → Option (List UnlockKey × List String)
+def textReadKeys : Nat → List String → Option (List UnlockKey × List String)
   | 0, r => some ([], r)
   | n + 1, a :: k :: r =>
-    match unhexArg a, unhexArg k, readKeys n r with
+    match textUnhexArg a, textUnhexArg k, textReadKeys n r with
     | some a, some k, some (ks, r) => some (⟨a, k⟩ :: ks, r)
     | _, _, _ => none
   | _, _ => none
 
 mutual
-  private def readPolicy : Nat → List String → Option (Policy × List String)
+  def textReadPolicy : Nat → List String → Option (Policy × List String)
     | 0, _ => none
     | f + 1, toks =>
       match toks with
       | "ab" :: h :: r => h.toNat?.map (fun h => (.above h, r))
       | "af" :: t :: r => t.toInt?.map (fun t => (.after t, r))
-      | "pk" :: k :: r => (unhexArg k).map (fun k => (.pk k, r))
-      | "h" :: k :: r => (unhexArg k).map (fun k => (.hash k, r))
-      | "op" :: k :: r => (unhexArg k).map (fun k => (.opaque k, r))
+      | "pk" :: k :: r => (textUnhexArg k).map (fun k => (.pk k, r))
+      | "h" :: k :: r => (textUnhexArg k).map (fun k => (.hash k, r))
+      | "op" :: k :: r => (textUnhexArg k).map (fun k => (.opaque k, r))
       | "th" :: n :: k :: r =>
         match n.toNat?, k.toNat? with
         | some n, some k =>
-          match readPL f k r with
+          match textReadPL f k r with
           | some (ps, r) => some (.thresh n ps, r)
           | none => none
         | _, _ => none
       | "uc" :: tl :: sg :: k :: r =>
         match tl.toNat?, sg.toNat?, k.toNat? with
         | some tl, some sg, some k =>
-          match readKeys k r with
+          match textReadKeys k r with
           | some (ks, r) => some (.uc tl ks sg, r)
           | none => none
         | _, _, _ => none
       | _ => none
-  private def readPL : Nat → Nat → List String → Option (PolicyList × List String)
+  def textReadPL : Nat → Nat → List String → Option (PolicyList × List String)
     | 0, _, _ => none
     | _ + 1, 0, r => some (.nil, r)
     | f + 1, k + 1, r =>
-      match readPolicy f r with
+      match textReadPolicy f r with
       | some (p, r) =>
-        match readPL f k r with
+        match textReadPL f k r with
         | some (ps, r) => some (.cons p ps, r)
         | none => none
       | none => none
@@ -103,60 +103,60 @@ end
 
 def textOp (args : List String) : String :=
   match args with
-  | ["hex.enc", b] => match unhexArg b with
-    | some b => hexOut (hexEnc b) | none => "bad-op"
-  | ["hex.parse", n, t] => match n.toNat?, unhexArg t with
+  | ["hex.enc", b] => match textUnhexArg b with
+    | some b => textHexOut (hexEnc b) | none => "bad-op"
+  | ["hex.parse", n, t] => match n.toNat?, textUnhexArg t with
     | some n, some t => optOut (unmarshalHex n t) | _, _ => "bad-op"
-  | ["addr.str", a] => match unhexArg a with
-    | some a => hexOut (addrStringH hashBytes Gen.FactsText.addrChecksumLenPrint a) | none => "bad-op"
-  | ["addr.parse", t] => match unhexArg t with
+  | ["addr.str", a] => match textUnhexArg a with
+    | some a => textHexOut (addrStringH hashBytes Gen.FactsText.addrChecksumLenPrint a) | none => "bad-op"
+  | ["addr.parse", t] => match textUnhexArg t with
     | some t => optOut (parseAddrH hashBytes addrLen ckLen t) | none => "bad-op"
-  | ["pk.str", k] => match unhexArg k with
-    | some k => hexOut (pkString Gen.FactsText.pkPrefixBytes k) | none => "bad-op"
-  | ["pk.parse", t] => match unhexArg t with
+  | ["pk.str", k] => match textUnhexArg k with
+    | some k => textHexOut (pkString Gen.FactsText.pkPrefixBytes k) | none => "bad-op"
+  | ["pk.parse", t] => match textUnhexArg t with
     | some t => optOut (parsePk Gen.FactsText.pkAlgBytes 32 t) | none => "bad-op"
-  | ["acct4.str", k] => match unhexArg k with
-    | some k => hexOut (pkString Gen.FactsText.account4PrefixBytes k) | none => "bad-op"
-  | ["acct4.parse", t] => match unhexArg t with
+  | ["acct4.str", k] => match textUnhexArg k with
+    | some k => textHexOut (pkString Gen.FactsText.account4PrefixBytes k) | none => "bad-op"
+  | ["acct4.parse", t] => match textUnhexArg t with
     | some t => resOut (parseAccount4 Gen.FactsText.acct4HexGuarded Gen.FactsText.account4TrimPrefixBytes Gen.FactsText.rhp4AccountSize t) | none => "bad-op"
-  | ["ci.text", h, id] => match h.toNat?, unhexArg id with
-    | some h, some id => hexOut (ciText ⟨h, id⟩) | _, _ => "bad-op"
-  | ["ci.str", h, id] => match h.toNat?, unhexArg id with
-    | some h, some id => hexOut (ciString ⟨h, id⟩) | _, _ => "bad-op"
-  | ["ci.parse", t] => match unhexArg t with
+  | ["ci.text", h, id] => match h.toNat?, textUnhexArg id with
+    | some h, some id => textHexOut (ciText ⟨h, id⟩) | _, _ => "bad-op"
+  | ["ci.str", h, id] => match h.toNat?, textUnhexArg id with
+    | some h, some id => textHexOut (ciString ⟨h, id⟩) | _, _ => "bad-op"
+  | ["ci.parse", t] => match textUnhexArg t with
     | some t => (match parseCi Gen.FactsText.ciHexGuarded 32 t with
-      | .ok ci => s!"ok {ci.height} {hexOut ci.id}"
+      | .ok ci => s!"ok {ci.height} {textHexOut ci.id}"
       | .err => "err"
       | .panic => "panic")
     | none => "bad-op"
   | ["ver.str", a, b, c] => match a.toNat?, b.toNat?, c.toNat? with
-    | some a, some b, some c => hexOut (versionText a b c) | _, _, _ => "bad-op"
-  | ["ver.parse", t] => match unhexArg t with
+    | some a, some b, some c => textHexOut (versionText a b c) | _, _, _ => "bad-op"
+  | ["ver.parse", t] => match textUnhexArg t with
     | some t => (match parseVersion t with
       | some (a, b, c) => s!"ok {a} {b} {c}"
       | none => "err")
     | none => "bad-op"
   | ["work.str", n] => match n.toNat? with
-    | some n => hexOut (workText n) | none => "bad-op"
-  | ["work.parse", t] => match unhexArg t with
+    | some n => textHexOut (workText n) | none => "bad-op"
+  | ["work.parse", t] => match textUnhexArg t with
     | some t => (match parseWork t with
       | some n => s!"ok {n}"
       | none => "err")
     | none => "bad-op"
-  | ["spec.str", s, runes] => match unhexArg s, runesArg runes with
-    | some s, some hi => hexOut (specString hi s) | _, _ => "bad-op"
-  | ["spec.parse", t] => match unhexArg t with
+  | ["spec.str", s, runes] => match textUnhexArg s, textRunesArg runes with
+    | some s, some hi => textHexOut (specString hi s) | _, _ => "bad-op"
+  | ["spec.parse", t] => match textUnhexArg t with
     | some t => optOut (parseSpec 16 t) | none => "bad-op"
-  | ["uk.str", a, k, runes] => match unhexArg a, unhexArg k, runesArg runes with
-    | some a, some k, some hi => hexOut (ukText hi ⟨a, k⟩) | _, _, _ => "bad-op"
-  | ["uk.parse", t] => match unhexArg t with
+  | ["uk.str", a, k, runes] => match textUnhexArg a, textUnhexArg k, textRunesArg runes with
+    | some a, some k, some hi => textHexOut (ukText hi ⟨a, k⟩) | _, _, _ => "bad-op"
+  | ["uk.parse", t] => match textUnhexArg t with
     | some t => (match parseUk 16 t with
-      | some uk => s!"ok {hexOut uk.alg} {hexOut uk.key}"
+      | some uk => s!"ok {textHexOut uk.alg} {textHexOut uk.key}"
       | none => "err")
     | none => "bad-op"
-  | "pol.str" :: runes :: toks => match runesArg runes, readPolicy (toks.length + 1) toks with
-    | some hi, some (p, []) => hexOut (Policy.str hi p) | _, _ => "bad-op"
-  | ["pol.parse", t] => match unhexArg t with
+  | "pol.str" :: runes :: toks => match textRunesArg runes, textReadPolicy (toks.length + 1) toks with
+    | some hi, some (p, []) => textHexOut (Policy.str hi p) | _, _ => "bad-op"
+  | ["pol.parse", t] => match textUnhexArg t with
     | some t => (match parsePolicy (goCfg (fun _ => false)) t with
       | some p => "ok " ++ " ".intercalate (showPolicy p)
       | none => "err")
